@@ -50,8 +50,8 @@ structure Sound (fuel : Nat) : Prop where
     Steps D (.mk (ss ++ rest) .iterate, σ) (.mk rest .iterate, σ')
   stmt : ∀ s rest (σ σ' : Sys W), execStmt D fuel s σ = some σ' →
     Steps D (.mk (s :: rest) .iterate, σ) (.mk rest .iterate, σ')
-  loop : ∀ var n body rest (σ σ' : Sys W), loopIter D fuel var n body σ = some σ' →
-    Steps D (.mk rest (.startInner ⟨var, n, body⟩), σ) (.mk rest .iterate, σ')
+  loop : ∀ var n body cur rest (σ σ' : Sys W), loopIter D fuel var n body cur σ = some σ' →
+    Steps D (.mk rest (.startInner ⟨var, n, body, cur⟩), σ) (.mk rest .iterate, σ')
   whil : ∀ cond body rest (σ σ' : Sys W), whileIter D fuel cond body σ = some σ' →
     Steps D (.mk rest (.startWhile ⟨cond, body⟩), σ) (.mk rest .iterate, σ')
 
@@ -91,19 +91,19 @@ theorem sound : ∀ fuel, Sound D fuel := by
         simp only [execStmt] at h
         split at h
         · next n c' he =>
-          refine .cont1 D (it' := .mk rest (.startLoop ⟨var, n, body⟩)) (c' := c') (by simp [step, he]) ?_
+          refine .cont1 D (it' := .mk rest (.startLoop ⟨var, n, body, 0⟩)) (c' := c') (by simp [step, he]) ?_
           split at h
           · next hn => cases h; exact .cont0 D (by simp [step, hn])
           · next hn =>
-            refine .cont1 D (it' := .mk rest (.startInner ⟨var, n, body⟩)) (c' := c'.pushFrame.set var 0) (by simp [step, hn]) ?_
-            exact ih.loop var n body rest _ _ h
+            refine .cont1 D (it' := .mk rest (.startInner ⟨var, n, body, 0⟩)) (c' := c'.pushFrame.set var 0) (by simp [step, hn]) ?_
+            exact ih.loop var n body 0 rest _ _ h
         · cases h
       | «while» cond body =>
         simp only [execStmt] at h
         refine .cont1 D (it' := .mk rest (.startWhile ⟨cond, body⟩)) (c' := c) (by simp [step]) ?_
         exact ih.whil cond body rest _ _ h
     · -- loop
-      intro var n body rest σ σ' h
+      intro var n body cur rest σ σ' h
       simp only [loopIter] at h
       split at h
       · cases h
@@ -112,20 +112,17 @@ theorem sound : ∀ fuel, Sound D fuel := by
         obtain ⟨c2, w2, l2⟩ := σ2
         have hbody := ih.block body [] _ _ hb
         simp only [List.append_nil] at hbody
-        refine .cont1 D (it' := .mk rest (.inner (.mk body .iterate) ⟨var, n, body⟩)) (c' := c) (by simp [step]) ?_
-        refine (lift_inner D rest ⟨var, n, body⟩ hbody).trans D ?_
-        refine .cont1 D (it' := .mk rest (.endInner ⟨var, n, body⟩)) (c' := c2) (by simp [step]) ?_
+        refine .cont1 D (it' := .mk rest (.inner (.mk body .iterate) ⟨var, n, body, cur⟩)) (c' := c) (by simp [step]) ?_
+        refine (lift_inner D rest ⟨var, n, body, cur⟩ hbody).trans D ?_
+        refine .cont1 D (it' := .mk rest (.endInner ⟨var, n, body, cur⟩)) (c' := c2) (by simp [step]) ?_
         simp only at h
         split at h
-        · next prev hg =>
-          split at h
-          · next hlt =>
-            refine .cont1 D (it' := .mk rest (.startInner ⟨var, n, body⟩)) (c' := c2.set var (satSucc prev)) (by simp [step, hg, hlt]) ?_
-            exact ih.loop var n body rest _ _ h
-          · next hlt =>
-            cases h
-            exact .cont0 D (by simp [step, hg, hlt])
-        · cases h
+        · next hlt =>
+          refine .cont1 D (it' := .mk rest (.startInner ⟨var, n, body, satSucc cur⟩)) (c' := c2.set var (satSucc cur)) (by simp [step, hlt]) ?_
+          exact ih.loop var n body (satSucc cur) rest _ _ h
+        · next hlt =>
+          cases h
+          exact .cont0 D (by simp [step, hlt])
     · -- while
       intro cond body rest σ σ' h
       obtain ⟨c, w, l⟩ := σ
